@@ -5,6 +5,7 @@ import (
 	"encoding/binary"
 	"fmt"
 	"io"
+	"sort"
 	"strings"
 	"sync"
 
@@ -167,17 +168,80 @@ func (vc *VCache) getMappedVersionsDist(v dvid.VersionID) distFromRoot {
 	vc.mappedVersionsMu.RUnlock()
 
 	if !found { // We have an uncached version so cache the distFromRoot
-		ancestry, err := datastore.GetAncestry(v)
+		_, dists, err := getAncestorDists(v)
 		if err != nil {
 			dvid.Errorf("Error getting ancestry for version %d: %v\n", v, err)
 			return nil
 		}
 		vc.mappedVersionsMu.Lock()
-		dist = getDistFromRoot(ancestry)
+		dist = dists[v]
 		vc.mappedVersions[v] = dist
 		vc.mappedVersionsMu.Unlock()
 	}
 	return dist
+}
+
+// getAncestorDists returns every ancestor of v (v included), following all parents of
+// merge nodes, ordered from v toward the root, and for each of them its own distFromRoot
+// map.  The distance of a version is measured along the longest path from the root
+// (root = 1), so a version is always farther from the root than any of its ancestors and
+// the mappings written on either side of a merge are visible at the merge node.  For a
+// history without merges this is the first-parent ancestry with root = 1, leaf = length.
+func getAncestorDists(v dvid.VersionID) ([]dvid.VersionID, map[dvid.VersionID]distFromRoot, error) {
+	parents := make(map[dvid.VersionID][]dvid.VersionID)
+	stack := []dvid.VersionID{v}
+	for len(stack) > 0 {
+		cur := stack[len(stack)-1]
+		stack = stack[:len(stack)-1]
+		if _, seen := parents[cur]; seen {
+			continue
+		}
+		ps, err := datastore.GetParentsByVersion(cur)
+		if err != nil {
+			return nil, nil, err
+		}
+		parents[cur] = ps
+		stack = append(stack, ps...)
+	}
+	dist := make(distFromRoot, len(parents))
+	var longest func(x dvid.VersionID) uint32
+	longest = func(x dvid.VersionID) uint32 {
+		if d, found := dist[x]; found {
+			return d
+		}
+		var d uint32
+		for _, p := range parents[x] {
+			if pd := longest(p); pd > d {
+				d = pd
+			}
+		}
+		dist[x] = d + 1
+		return d + 1
+	}
+	longest(v)
+	ordered := make([]dvid.VersionID, 0, len(parents))
+	for x := range parents {
+		ordered = append(ordered, x)
+	}
+	sort.Slice(ordered, func(i, j int) bool {
+		if dist[ordered[i]] != dist[ordered[j]] {
+			return dist[ordered[i]] > dist[ordered[j]]
+		}
+		return ordered[i] < ordered[j]
+	})
+	// every ancestor sees exactly its own ancestors
+	dists := make(map[dvid.VersionID]distFromRoot, len(ordered))
+	for i := len(ordered) - 1; i >= 0; i-- { // root first: parents are complete before their children
+		x := ordered[i]
+		m := distFromRoot{x: dist[x]}
+		for _, p := range parents[x] {
+			for a, d := range dists[p] {
+				m[a] = d
+			}
+		}
+		dists[x] = m
+	}
+	return ordered, dists, nil
 }
 
 // goroutine-safe function for initializing the in-memory mapping with a version's mutations log
@@ -285,24 +349,24 @@ func (vc *VCache) initToVersion(d dvid.Data, v dvid.VersionID, loadMutations boo
 	vc.mu.Lock()
 	defer vc.mu.Unlock()
 
-	ancestors, err := datastore.GetAncestry(v)
+	ancestors, dists, err := getAncestorDists(v)
 	if err != nil {
 		return err
 	}
-	for pos, ancestor := range ancestors {
+	for _, ancestor := range ancestors {
 		vc.mappedVersionsMu.Lock()
 		if _, found := vc.mappedVersions[ancestor]; found {
 			vc.mappedVersionsMu.Unlock()
-			return nil // we have already loaded this version and its ancestors
+			continue // already loaded (its ancestors too, but another parent of a merge may not be)
 		}
-		vc.mappedVersions[ancestor] = getDistFromRoot(ancestors[pos:])
+		vc.mappedVersions[ancestor] = dists[ancestor]
 		vc.mappedVersionsMu.Unlock()
 
 		if loadMutations {
 			ch := make(chan storage.LogMessage, 1000)
 			wg := new(sync.WaitGroup)
 			wg.Add(1)
-			go vc.loadVersionMapping(ancestors[pos:], d.DataName(), ch, wg)
+			go vc.loadVersionMapping([]dvid.VersionID{ancestor}, d.DataName(), ch, wg)
 
 			if err = labels.StreamLog(d, ancestor, ch); err != nil {
 				return fmt.Errorf("problem loading mapping logs for data %q, version %d: %v", d.DataName(), ancestor, err)
